@@ -167,12 +167,22 @@ def _sing_of(f, u):
     return math.inf
 
 
-class Jet:
-    __slots__ = ("v", "g", "H", "av", "ag", "aH", "isconst", "lit")
+EPS = 2.3e-16
+# comparisons use tol = 1e-9 * (1 + shadow).  A running first-order rounding-error bound `ev` of every value
+# is carried along; where it is amplified into the gradient (|f''| * ev * |u'|, ev_a * |b'| in products) the
+# amplified amount enters the gradient shadow with the factor CAMP, so that tol >= 100 x the rounding error
+# two correctly rounded evaluations of the same formula can differ by (ill-conditioned compositions such as
+# sin(4e5 / cosh(x)) are then judged with the accuracy they can actually have).
+CAMP = 100.0 / 1e-9
 
-    def __init__(self, v, g, H, av, ag, aH, isconst=False):
+
+class Jet:
+    __slots__ = ("v", "g", "H", "av", "ag", "aH", "isconst", "lit", "ev")
+
+    def __init__(self, v, g, H, av, ag, aH, isconst=False, ev=0.0):
         self.v, self.g, self.H, self.av, self.ag, self.aH, self.isconst = v, g, H, av, ag, aH, isconst
         self.lit = False  # True only for a literal constant leaf
+        self.ev = ev      # bound on the absolute rounding error of v
 
 
 class JetSc:
@@ -192,14 +202,14 @@ class JetSc:
         self._zH = np.zeros((self.n, self.n)) if second else None
 
     # -- helpers
-    def _mk(self, v, g, H, av, ag, aH, isconst=False):
+    def _mk(self, v, g, H, av, ag, aH, isconst=False, ev=0.0):
         if not math.isfinite(v):
             self.ok = False
         else:
             self.maxabs = max(self.maxabs, abs(v))
         if not np.all(np.isfinite(g)):
             self.ok = False
-        return Jet(float(v), g, H, float(av), ag, aH, isconst)
+        return Jet(float(v), g, H, float(av), ag, aH, isconst, ev)
 
     def _touch(self, s):
         if not (s == s):  # NaN
@@ -237,8 +247,9 @@ class JetSc:
             s = 1.0 if op == "+" else -1.0
             H = a.H + s * b.H if self.second else None
             aH = a.aH + b.aH if self.second else None
-            return self._mk(a.v + s * b.v, a.g + s * b.g, H, a.av + b.av, a.ag + b.ag, aH,
-                            a.isconst and b.isconst)
+            v = a.v + s * b.v
+            return self._mk(v, a.g + s * b.g, H, a.av + b.av, a.ag + b.ag, aH,
+                            a.isconst and b.isconst, a.ev + b.ev + EPS * abs(v))
         if op == "*":
             return self._mul(a, b)
         if op == "/":
@@ -254,20 +265,21 @@ class JetSc:
     def _mul(self, a, b):
         v = a.v * b.v
         g = a.v * b.g + b.v * a.g
-        ag = abs(a.v) * b.ag + abs(b.v) * a.ag
+        ag = abs(a.v) * b.ag + abs(b.v) * a.ag + CAMP * (a.ev * np.abs(b.g) + b.ev * np.abs(a.g))
+        ev = abs(a.v) * b.ev + abs(b.v) * a.ev + EPS * abs(v)
         if self.second:
             H = a.v * b.H + b.v * a.H + self._outer2(a.g, b.g)
             aH = abs(a.v) * b.aH + abs(b.v) * a.aH + self._outer2(a.ag, b.ag)
         else:
             H = aH = None
-        return self._mk(v, g, H, a.av * b.av, ag, aH, a.isconst and b.isconst)
+        return self._mk(v, g, H, a.av * b.av, ag, aH, a.isconst and b.isconst, ev)
 
     def _unary_raw(self, a, fv, f1, f2):
         if not (math.isfinite(fv) and math.isfinite(f1) and math.isfinite(f2)):
             self.ok = False
             return a
         g = f1 * a.g
-        ag = abs(f1) * a.ag
+        ag = abs(f1) * a.ag + CAMP * abs(f2) * a.ev * np.abs(a.g)
         if self.second:
             H = f1 * a.H + f2 * np.outer(a.g, a.g)
             aH = abs(f1) * a.aH + abs(f2) * np.outer(a.ag, a.ag)
@@ -275,7 +287,7 @@ class JetSc:
             H = aH = None
         # value shadow: |f(v)| plus first-order sensitivity to the shadow excess of the input
         av = abs(fv) + abs(f1) * max(0.0, a.av - abs(a.v))
-        return self._mk(fv, g, H, av, ag, aH, a.isconst)
+        return self._mk(fv, g, H, av, ag, aH, a.isconst, abs(f1) * a.ev + 2 * EPS * abs(fv))
 
     def _pow(self, a, b):
         if b.isconst:
@@ -313,7 +325,7 @@ class JetSc:
         if not self.ok:
             return a
         if f == "neg":
-            return self._mk(-a.v, -a.g, (-a.H if self.second else None), a.av, a.ag, a.aH, a.isconst)
+            return self._mk(-a.v, -a.g, (-a.H if self.second else None), a.av, a.ag, a.aH, a.isconst, a.ev)
         s = _sing_of(f, a.v)
         self._touch(s)
         if s <= 0:
